@@ -84,16 +84,74 @@ def run_parts(cmd_prefix, in_files, name, extra=None, timeout=3600):
         procs.append(subprocess.Popen([exe] + cmd_prefix + ["-in", f, "-out", out] + (extra or []),
                                       stdout=subprocess.PIPE, stderr=subprocess.PIPE, text=True))
     sums = []
-    for p in procs:
+    for k, p in enumerate(procs):
         try:
             so, se = p.communicate(timeout=timeout)
         except subprocess.TimeoutExpired:
             p.kill()
             raise Inconclusive("harness timeout")
         if p.returncode != 0:
-            raise Inconclusive("harness failed (%d): %s %s" % (p.returncode, so[-1500:], se[-3000:]))
+            raise HarnessCrash(cmd_prefix + (extra or []), in_files[k], p.returncode, so[-1500:] + se[-3000:])
         sums.append(vlib.last_json(so))
     return outs, sums
+
+
+class HarnessCrash(Inconclusive):
+    """The harness process died while executing a part (fatal runtime error inside the library, e.g. stack overflow)."""
+    def __init__(self, cmd, part, rc, tail):
+        Inconclusive.__init__(self, "harness failed (%d): %s" % (rc, tail))
+        self.cmd, self.part, self.rc, self.tail = cmd, part, rc, tail
+
+
+def isolate_crash(rep, hc, stage):
+    """Find the history that kills the harness by running the part's histories one per process; a history that
+    reproducibly crashes a fresh process is a behaviour of the real code (the library took the process down)."""
+    exe = vlib.build_harness()
+    with open(hc.part) as f:
+        lines = f.read().split("\n")
+    hdr, hists = lines[0], [x for x in lines[1:] if x.strip()]
+    d = os.path.join(vlib.scratch(), "crash-%d" % random.randrange(1 << 30))
+    os.makedirs(d)
+    for i, h in enumerate(hists[:400]):
+        hf = os.path.join(d, "one.ndjson")
+        open(hf, "w").write(hdr + "\n" + h + "\n")
+        ok = True
+        for attempt in range(2):
+            try:
+                p = subprocess.run([exe] + hc.cmd + ["-in", hf, "-out", os.path.join(d, "o.ndjson")], capture_output=True, text=True, timeout=120)
+                crashed = p.returncode != 0
+                tail = (p.stdout[-500:] + p.stderr[-1500:])
+            except subprocess.TimeoutExpired:
+                crashed, tail = True, "timeout (no termination within 120 s)"
+            if not crashed:
+                ok = False
+                break
+        if ok:
+            sig = "crash:%s" % hc.cmd[0]
+            first = [x for x in tail.split("\n") if x.startswith("fatal error") or x.startswith("panic") or "timeout" in x]
+            what = "the library takes the process down (%s) while executing a valid history of %d ops" % (first[0] if first else "fatal runtime error", len(json.loads(h)))
+            payload = {"property": rep.prop, "stage": stage, "engine": "crash", "cmd": hc.cmd, "cfg": json.loads(hdr).get("cfg"),
+                       "history": json.loads(h), "signature": sig, "output_tail": tail[-1500:]}
+            k = vlib.known_match(rep.prop, sig)
+            if k:
+                rep.known.append("%s [%s]" % (k.get("what", sig), sig))
+            else:
+                rep.violations.append({"signature": sig, "what": what, "replay": vlib.write_replay(rep.prop, payload)})
+            return True
+    return False
+
+
+def crash_replay(payload):
+    exe = vlib.build_harness()
+    d = os.path.join(vlib.scratch(), "replay-%d" % random.randrange(1 << 30))
+    os.makedirs(d)
+    hf = os.path.join(d, "one.ndjson")
+    open(hf, "w").write(json.dumps({"cfg": payload["cfg"]}) + "\n" + json.dumps(payload["history"]) + "\n")
+    try:
+        p = subprocess.run([exe] + payload["cmd"] + ["-in", hf, "-out", os.path.join(d, "o.ndjson")], capture_output=True, text=True, timeout=120)
+        return p.returncode != 0
+    except subprocess.TimeoutExpired:
+        return True
 
 
 def handle_results(rep, results, module, cfg, describe, confirm, stage):
@@ -203,7 +261,13 @@ def merge_stats(stats):
 def hist_stage(rep, stage, run_cmd, engine, trace_module, tcfg, hist_files, mode, what_prefix, sigfn=None, consts=None, tkey="t"):
     """Execute history part files with the harness, validate the traces, classify rejections."""
     t0 = time.time()
-    traces, sums = run_parts(run_cmd + ["-mode", mode], hist_files, stage)
+    try:
+        traces, sums = run_parts(run_cmd + ["-mode", mode], hist_files, stage)
+    except HarnessCrash as hc:
+        if isolate_crash(rep, hc, stage):
+            rep.stages[stage] = {"crashed": True}
+            return 0
+        raise
     nh = sum(s.get("histories", 0) for s in sums)
     t1 = time.time()
     results = vlib.validate_traces(traces, trace_module, tcfg, stage + "-tv", consts=consts)
@@ -451,7 +515,32 @@ def check_C05(rep):
     if not r.ok:
         raise Inconclusive("Thresholds lemmas failed in the model: " + r.out[-2000:])
     rep.add_model("MC_Thresholds: all legal slab sizes 256..32768", r)
-    array_stages(rep, "ArrayTrace_C05.cfg", "real Array slab tree violates well-formedness", "c05")
+    what = "slab tree violates well-formedness"
+    array_stages(rep, "ArrayTrace_C05.cfg", "real Array " + what, "c05")
+    quick = rep.tier == "quick"
+    map_collide_stage(rep, "MapTrace_C05.cfg", "real OrderedMap " + what, "c05", 255, 3, (1, 40) if quick else (1, 4))
+    for (T, nkeys, mode, ksz, vs, maxel, num, depth) in ([(256, 40, "spread", 5, "{12, 40, 60, 101}", 107, 14, 150), (256, 24, "clustered", 5, "{12, 40}", 107, 8, 100)] if quick else
+                                                         [(256, 40, "spread", 5, "{12, 40, 60, 101}", 107, 300, 400), (256, 24, "clustered", 5, "{12, 40, 90}", 107, 200, 300),
+                                                          (512, 60, "spread", 9, "{12, 100, 229}", 235, 150, 500), (1024, 80, "spread", 9, "{12, 200, 485}", 491, 60, 600)]):
+        map_walk_stage(rep, "MapTrace_C05.cfg", "real OrderedMap " + what, "c05", T, nkeys, mode, ksz, vs, maxel, num, depth)
+    # containers produced by the bulk builders are containers too: every size stream over edge sizes, then bulk build
+    maxel = 6 if quick else 7
+    files, n, total = model_histories(rep, "MC_Array.tla", "MC_Array.cfg",
+                                      {"EmitEdges": "TRUE", "MaxElems": maxel, "T": 256, "Sizes": "{8, 20, 60, 70, 117}", "AppendOnly": "TRUE"},
+                                      "MC_Array append-only: all size streams over {8,20,60,70,117} up to %d elements (bulk-built copies)" % maxel,
+                                      {"cfg": {"T": 256}}, (lambda ops, key: frac(key + rep.seed, 1, 3)) if quick else None, "c05-streams")
+    base = len(rep.distinct)
+    rep.distinct.update(range(base, base + n))
+    hist_stage(rep, "c05-array-streams", probe_cmd("array-run", "batch", rep), "array", "ArrayTrace.tla", "ArrayTrace_C05.cfg", files, "edge", "bulk-built Array " + what)
+    for (depth, num) in ([(6, 100), (9, 100)] if quick else [(5, 1500), (7, 2500), (9, 2500)]):
+        nm = "c05-map-streams%d" % depth
+        wf, wn = sim_histories(rep, "MC_MapWalk.tla", "MC_MapWalk.cfg",
+                               {"Keys": keyset(12), "DigMode": '"spread"', "KSz": 5, "VSizes": "{14, 39, 74, 101}", "GrowUntil": 1000, "ShrinkFrom": 1000000},
+                               "MC_MapWalk growth-only streams of %d inserts (bulk-built copies)" % depth, {"cfg": {"T": 256, "limit": 255}}, nm, num, depth)
+        base = len(rep.distinct)
+        rep.distinct.update(range(base, base + wn))
+        hist_stage(rep, nm, probe_cmd("map-run", "batch", rep), "map", "MapTrace.tla", "MapTrace_C05.cfg", wf, "edge", "bulk-built OrderedMap " + what)
+    rep.exhaustive = False
 
 
 # ---------------------------------------------------------------------------
@@ -802,6 +891,197 @@ def check_C09(rep):
     nested_stages(rep, "c09", "NestedTrace_C09.cfg", "slab leak or dangling reference")
 
 
+def probe_cmd(base, probes, rep):
+    return [base, "-probe", probes, "-seed", str(rep.seed)]
+
+
+def array_probe_stages(rep, prefix, tcfg, what, probes, maxel_q=4, maxel_t=6, edge_den_q=2, walks=True, sizes="{19, 60, 117, 130}"):
+    quick = rep.tier == "quick"
+    maxel = maxel_q if quick else maxel_t
+    consts = {"EmitEdges": "TRUE", "MaxElems": maxel, "T": 256, "Sizes": sizes}
+    files, n, total = model_histories(rep, "MC_Array.tla", "MC_Array.cfg", consts,
+                                      "MC_Array T=256 Sizes=%s MaxElems=%d (probes at the end of every history)" % (sizes, maxel),
+                                      {"cfg": {"T": 256}}, (lambda ops, key: frac(key + rep.seed, 1, edge_den_q)) if quick else None, prefix + "-amc")
+    base = len(rep.distinct)
+    rep.distinct.update(range(base, base + n))
+    hist_stage(rep, prefix + "-array-edges", probe_cmd("array-run", probes, rep), "array", "ArrayTrace.tla", "ArrayTrace_%s.cfg" % tcfg, files, "edge", what)
+    rep.stages[prefix + "-array-edges"]["selected_of_distinct_histories"] = [n, total]
+    if walks:
+        for (T, sz, num, depth) in ([(256, "{19, 60, 117, 130}", 16, 70)] if quick else
+                                    [(256, "{19, 60, 117, 130}", 600, 200), (512, "{30, 120, 245, 300}", 300, 300), (1024, "{40, 250, 501, 700}", 100, 400)]):
+            nm = "%s-array-walk%d" % (prefix, T)
+            wf, wn = sim_histories(rep, "MC_Array.tla", "MC_Array_sim.cfg",
+                                   {"T": T, "Sizes": sz, "WithReads": "FALSE", "AllowPop": "FALSE", "MaxElems": 100000,
+                                    "GrowUntil": depth, "ShrinkFrom": 1000000},
+                                   "MC_Array T=%d growth walks" % T, {"cfg": {"T": T}}, nm, num, depth)
+            base = len(rep.distinct)
+            rep.distinct.update(range(base, base + wn))
+            hist_stage(rep, nm, probe_cmd("array-run", probes, rep), "array", "ArrayTrace.tla", "ArrayTrace_%s.cfg" % tcfg, wf, "edge", what)
+    return quick
+
+
+def map_probe_stages(rep, prefix, tcfg, what, probes, walks=True, vsizes="{12, 40, 60}"):
+    quick = rep.tier == "quick"
+    consts = {"EmitEdges": "TRUE", "Limit": 255, "Keys": keyset(3)}
+    files, n, total = model_histories(rep, "MC_Map.tla", "MC_Map.cfg", consts,
+                                      "MC_Map 3 keys, all digest assignments over {0,1}^4 (probes at the end of every history)",
+                                      {"cfg": {"T": 256, "limit": 255}}, lambda ops, key: frac(key + rep.seed, 1, 240 if quick else 8), prefix + "-mmc")
+    base = len(rep.distinct)
+    rep.distinct.update(range(base, base + n))
+    hist_stage(rep, prefix + "-map-edges", probe_cmd("map-run", probes, rep), "map", "MapTrace.tla", "MapTrace_%s.cfg" % tcfg, files, "edge", what)
+    rep.stages[prefix + "-map-edges"]["selected_of_distinct_histories"] = [n, total]
+    if walks:
+        for (T, nkeys, mode, ksz, vs, num, depth) in ([(256, 40, "spread", 5, vsizes, 14, 50), (256, 24, "clustered", 5, "{12, 40}", 10, 50)] if quick else
+                                                     [(256, 40, "spread", 5, vsizes, 500, 120), (256, 24, "clustered", 5, "{12, 40}", 300, 100),
+                                                      (512, 60, "spread", 9, "{12, 100, 200}", 200, 150)]):
+            nm = "%s-map-walk%d-%s" % (prefix, T, mode)
+            wf, wn = sim_histories(rep, "MC_MapWalk.tla", "MC_MapWalk.cfg",
+                                   {"Keys": keyset(nkeys), "DigMode": '"%s"' % mode, "KSz": ksz, "VSizes": vs,
+                                    "GrowUntil": depth, "ShrinkFrom": 1000000},
+                                   "MC_MapWalk T=%d %d keys %s digests (growth walks)" % (T, nkeys, mode), {"cfg": {"T": T, "limit": 255}}, nm, num, depth)
+            base = len(rep.distinct)
+            rep.distinct.update(range(base, base + wn))
+            hist_stage(rep, nm, probe_cmd("map-run", probes, rep), "map", "MapTrace.tla", "MapTrace_%s.cfg" % tcfg, wf, "edge", what)
+
+
+def check_C13(rep):
+    rep.rule = ("at the end of every TLC-explored history (array: all shapes up to 4-6 elements; map: all digest assignments over {0,1}^4 of 3 keys, "
+                "sampled) and of simulated growth walks (multi-level trees, collision groups across slabs) the harness runs every enumeration "
+                "flavour (read-only, mutable, iterator objects, keys-only, values-only, loaded-values, Get of every index), all range bounds "
+                "incl. invalid ones, a mutable iteration that overwrites the current element at a random subset of positions with sizes that "
+                "move slabs, and - after a commit - loaded-value iteration in brand-new storages with every subset of slabs loaded; the trace "
+                "specification requires each to equal the canonical order of the model (arrays: index order; maps: ascending digest vector, "
+                "insertion order among full collisions), ranges to be the slice or the right error, partial loads to be in-order subsequences; "
+                "bulk pops (reverse order) are ordinary history operations")
+    what = "iteration does not yield the container's elements once in canonical order"
+    array_probe_stages(rep, "c13", "C13", what, "iter,mutiter,partial")
+    map_probe_stages(rep, "c13", "C13", what, "iter,mutiter,partial")
+    rep.exhaustive = False
+
+
+def check_C17(rep):
+    rep.rule = ("(a) ArrayTree.tla transcribes NewArrayFromBatchData (TBatch); (b) at the end of every TLC-explored history - including an "
+                "append-only configuration that enumerates every element-size stream up to 6-7 elements over sizes on the inline / half-slab "
+                "edges - and of simulated growth walks, the harness bulk-builds a new container from the source's iterator (maps: with the "
+                "source's seed) and copies it with CopyNonRefSimple; the trace specification requires equal content and order, a structure valid "
+                "by TreeInv, a different identity, CanCopyNonRefSimple true exactly for single-slab containers of plain values (and then success), "
+                "and, after mutating and disposing of the result, an unaffected source and no leaked slab; (c) byte slice <-> byte array "
+                "conversion around the single-slab fast-path boundary")
+    what = "bulk build / copy result is not an equivalent, valid, independent value"
+    array_probe_stages(rep, "c17", "C17", what, "batch,copy")
+    quick = rep.tier == "quick"
+    # every size stream (append-only histories), sizes on the edges: tail rebalance / merge of the bulk builder
+    maxel = 6 if quick else 7
+    consts = {"EmitEdges": "TRUE", "MaxElems": maxel, "T": 256, "Sizes": "{8, 20, 60, 70, 117}", "AppendOnly": "TRUE"}
+    files, n, total = model_histories(rep, "MC_Array.tla", "MC_Array.cfg", consts,
+                                      "MC_Array append-only: all size streams over {8,20,60,70,117} up to %d elements" % maxel,
+                                      {"cfg": {"T": 256}}, None, "c17-streams")
+    base = len(rep.distinct)
+    rep.distinct.update(range(base, base + n))
+    hist_stage(rep, "c17-array-streams", probe_cmd("array-run", "batch", rep), "array", "ArrayTrace.tla", "ArrayTrace_C17.cfg", files, "edge", what)
+    map_probe_stages(rep, "c17", "C17", what, "batch,copy", vsizes="{12, 40, 70, 95}")
+    # short growth-only walks with element sizes on the edges (an element at the inline limit at the tail of a slab,
+    # an underflowing trailing slab): tail rebalance / merge of the map bulk builder
+    for (depth, num) in ([(6, 150), (9, 150)] if quick else [(5, 1500), (7, 2500), (9, 2500), (12, 1500)]):
+        nm = "c17-map-streams%d" % depth
+        wf, wn = sim_histories(rep, "MC_MapWalk.tla", "MC_MapWalk.cfg",
+                               {"Keys": keyset(12), "DigMode": '"spread"', "KSz": 5, "VSizes": "{14, 39, 74, 101}",
+                                "GrowUntil": 1000, "ShrinkFrom": 1000000},
+                               "MC_MapWalk growth-only streams of %d inserts, values {14,39,74,101}" % depth, {"cfg": {"T": 256, "limit": 255}}, nm, num, depth)
+        base = len(rep.distinct)
+        rep.distinct.update(range(base, base + wn))
+        hist_stage(rep, nm, probe_cmd("map-run", "batch", rep), "map", "MapTrace.tla", "MapTrace_C17.cfg", wf, "edge", what)
+    bytes_stage(rep)
+    rep.exhaustive = False
+
+
+def bytes_stage(rep):
+    exe = vlib.build_harness()
+    out = os.path.join(vlib.scratch(), "c17-bytes-trace-0.ndjson")
+    p = subprocess.run([exe, "bytes-run", "-out", out, "-seed", str(rep.seed), "-tier", rep.tier], capture_output=True, text=True)
+    if p.returncode != 0:
+        raise Inconclusive("bytes-run failed: " + p.stderr[-2000:])
+    summ = vlib.last_json(p.stdout)
+    results = vlib.validate_traces([out], "BytesTrace.tla", "BytesTrace_C17.cfg", "c17-bytes-tv")
+
+    def describe(res, rec, trace, why):
+        sig = "bytes:%s:%s" % (rec["ev"], why)
+        return sig, "byte slice / byte array conversion: case len=%d est=%d T=%d rejected by %s" % (rec["len"], rec["est"], rec["T"], why), \
+            {"engine": "bytes", "seed": rep.seed, "tier": rep.tier, "case": {k: rec[k] for k in ("len", "est", "T")}, "trace": trace}
+
+    nrec = handle_results(rep, results, "BytesTrace.tla", "BytesTrace_C17.cfg", describe, bytes_replay, "c17-bytes")
+    rep.traces += nrec
+    rep.evaluations += nrec
+    rep.stages["c17-bytes"] = {"cases": summ.get("cases", nrec)}
+
+
+def bytes_replay(payload):
+    exe = vlib.build_harness()
+    d = os.path.join(vlib.scratch(), "replay-%d" % random.randrange(1 << 30))
+    os.makedirs(d)
+    out = os.path.join(d, "t.ndjson")
+    c = payload["case"]
+    p = subprocess.run([exe, "bytes-run", "-out", out, "-seed", str(payload["seed"]), "-tier", payload["tier"],
+                        "-only", "%d,%d,%d" % (c["len"], c["est"], c["T"])], capture_output=True, text=True)
+    if p.returncode != 0:
+        raise Inconclusive("bytes-run failed: " + p.stderr[-2000:])
+    res = vlib.validate_traces([out], payload["trace_module"], payload["trace_cfg"], os.path.basename(d) + "-tv")
+    for r in res:
+        if "error" in r:
+            raise Inconclusive(r["error"])
+    return any(not r["ok"] for r in res)
+
+
+def check_C18(rep):
+    rep.rule = ("(a) every TLC-explored array history (all shapes up to 4-6 elements) includes out-of-range Get/Set/Insert/Remove at count, "
+                "count+1 and beyond 2^32 with values of every size (incl. over-limit values that would allocate a slab), every map history "
+                "lookups / removals of absent keys and inserts refused by the collision limit (limits 0, 1, 2); the trace specification requires the "
+                "exact error class and category and that the projected slabs, the identifiers in storage, the write-set size and the ledger call "
+                "counter are those before the request; (b) invalid ranges (C13 probes); (c) multi-run: the history with and without its rejected "
+                "requests commits byte-identical registers; (d) failures injected into the ledger read, the key comparator and the hash-input "
+                "provider at every call made during lookups must surface as external errors")
+    quick = rep.tier == "quick"
+    what = "rejected request mis-categorised or leaves a trace"
+    array_probe_stages(rep, "c18", "C18", what, "iter", walks=False)
+    for lim in (255, 1, 0):
+        map_collide_stage(rep, "MapTrace_C18.cfg", what, "c18", lim, 3, (1, 40) if quick else (1, 4))
+    variants = [V_REF, {"name": "without-rejected-requests", "sched": "end", "mode": "det", "workers": 1, "faults": 0, "skiprejected": True}]
+    for kind in ("array", "map"):
+        files, n = walk_files(rep, "c18", kind, quick)
+        base = len(rep.distinct)
+        rep.distinct.update(range(base, base + n))
+        multirun_stage(rep, "c18-multirun-" + kind, kind, files, variants, "MultiRunTrace_C04.cfg", "rejected requests change the committed registers")
+    exterr_stage(rep)
+    rep.exhaustive = False
+
+
+def exterr_stage(rep):
+    exe = vlib.build_harness()
+    out = os.path.join(vlib.scratch(), "c18-exterr-trace-0.ndjson")
+    p = subprocess.run([exe, "exterr-run", "-out", out, "-seed", str(rep.seed), "-tier", rep.tier], capture_output=True, text=True)
+    if p.returncode != 0:
+        raise Inconclusive("exterr-run failed: " + p.stderr[-2000:])
+    summ = vlib.last_json(p.stdout)
+    results = vlib.validate_traces([out], "ExtErrTrace.tla", "ExtErrTrace_C18.cfg", "c18-exterr-tv")
+
+    def describe(res, rec, trace, why):
+        sig = "exterr:%s:%s:%s" % (rec["op"], rec["inject"], why)
+        return sig, "error injected into %s at call %d during %s is not reported as an external error" % (rec["inject"], rec["k"], rec["op"]), \
+            {"engine": "exterr", "seed": rep.seed, "tier": rep.tier, "trace": trace}
+
+    def confirm(payload):
+        p2 = subprocess.run([exe, "exterr-run", "-out", out + ".2", "-seed", str(payload["seed"]), "-tier", payload["tier"]], capture_output=True, text=True)
+        if p2.returncode != 0:
+            raise Inconclusive("exterr-run failed")
+        res = vlib.validate_traces([out + ".2"], payload["trace_module"], payload["trace_cfg"], "c18-exterr-tv2-%d" % random.randrange(1 << 20))
+        return any(not r["ok"] for r in res)
+
+    nrec = handle_results(rep, results, "ExtErrTrace.tla", "ExtErrTrace_C18.cfg", describe, confirm, "c18-exterr")
+    rep.traces += nrec
+    rep.evaluations += nrec
+    rep.stages["c18-exterr"] = summ
+
+
 def check_C20(rep):
     rep.rule = ("TLC enumerates every healthy labelled reference forest over N slabs (N=4: 125, N=5: 1296) with two owner patterns and every "
                 "single corruption of the four kinds (referenced slab deleted - as a pending deletion, a committed deletion, or missing from the "
@@ -903,7 +1183,7 @@ def check_C04(rep):
 def replay(rep, path):
     payload = json.load(open(path))
     eng = payload.get("engine")
-    fn = {"hist": hist_replay, "storage-random": storage_random_replay, "multirun": multirun_replay}.get(eng)
+    fn = {"hist": hist_replay, "storage-random": storage_random_replay, "multirun": multirun_replay, "bytes": bytes_replay, "crash": crash_replay}.get(eng)
     if fn is None:
         raise Inconclusive("unknown engine in replay file: %s" % eng)
     if fn(payload):
@@ -927,6 +1207,9 @@ CHECKS = {
     "C11": check_C11,
     "C08": check_C08,
     "C12": check_C12,
+    "C13": check_C13,
+    "C17": check_C17,
+    "C18": check_C18,
     "C14": check_C14,
     "C15": check_C15,
     "C20": check_C20,
